@@ -16,6 +16,8 @@ CONSTANTS MaxLen,       \* longest coverage vector
           Files,        \* file names a run may report (strings)
           AllowAbsent,  \* whether a run may omit a file altogether
           MaxRunsGrow,  \* SpecGrow only: bound on the number of runs
+          Part,         \* 0..3: only the tuples whose first run starts with that line state (splits a large
+                        \* enumeration into four TLC runs); 9: all tuples
           Emit
 
 \* core.LineCoverage: NotExecutable = 0 < Unreachable = 1 < Uncovered = 2 < Covered = 3 ("best" = greatest)
@@ -54,7 +56,9 @@ AggregateRun(a, r) ==    \* for filename, c := range cov.Files { Files[filename]
 Empty == [f \in Files |-> Absent]
 
 \* ---- machine
+PartOf(r) == LET v == r[CHOOSE f \in Files : TRUE] IN IF v = Absent \/ v = <<>> THEN 0 ELSE v[1]
 Init == /\ runs \in [1..NRuns -> RunSpace]
+        /\ Part = 9 \/ PartOf(runs[1]) = Part
         /\ acc = Empty
         /\ done = {}
 Aggregate(i) == /\ i \notin done
